@@ -144,7 +144,7 @@ def run(prop, tier, seed, replay):
     finally:
         C.remove(root)
 
-    gen = ck.driver("GenDriver", reqs)
+    gen = ck.driver("GenBinning", reqs)
     spec = ck.driver("SpecDriver", reqs)
     if spec is None:
         raise Infra("SpecDriver does not build")
